@@ -39,23 +39,31 @@ BASES = {
     # sensitivities that are DyadCarrier objects (the documented sensitivity type of a sparse-matrix signal); the model
     # holds their dense value
     'dy': dict(state=lambda: np.arange(1., 10.).reshape(3, 3), slices={}),
+    # 0-d arrays (what indexing with [..., 0] or a reduction with keepdims hands over): mutable, unlike python scalars
+    'z0': dict(state=lambda: np.array(2.5), slices={}),
 }
+# the same bases with every sensitivity value of order 1e-9 (judged relative to 1e-9)
+BASES['v4t'] = dict(BASES['v4'], slices={k: BASES['v4']['slices'][k] for k in ('a', 'f', 'n', 'r')})
+BASES['m23t'] = dict(BASES['m23'], slices={k: BASES['m23']['slices'][k] for k in ('t', 'f', 'x')})
+UNIT = {'v4t': 1e-9, 'm23t': 1e-9}
 SEED_CONST = [0.0, 0.5, -1.25, 2.0]
 
 
 def value(kind, what, shape, seed, cplx):
     """deterministic 'generic' values: depends on operation kind only (so equal operations merge states)."""
     base = {'setS': 7.5, 'setG': 2.0, 'add': 1.0, 'twice': 3.0, 'shared': -4.0, 'newS': 10.0}[what] + SEED_CONST[seed % 4]
+    unit = UNIT.get(kind, 1.0)
     if shape is None:
-        return base
+        return base * unit
     n = int(np.prod(shape)) if len(shape) else 1
     v = base + 0.25 * np.arange(n).reshape(shape)
     if cplx:
         v = v + 1j * (0.5 + 0.125 * np.arange(n).reshape(shape))
-    return v
+    return v * unit
 
 
-REDUCED = {'v4': ['a', 'f', 'n'], 'm23': ['t', 'f', 'x'], 'c3': ['a', 'f'], 't222': ['b', 'x'], 's': [], 'dy': []}
+REDUCED = {'v4': ['a', 'f', 'n'], 'm23': ['t', 'f', 'x'], 'c3': ['a', 'f'], 't222': ['b', 'x'], 's': [], 'dy': [], 'z0': [],
+           'v4t': ['a', 'f', 'n'], 'm23t': ['t', 'f', 'x']}
 
 
 def as_dyad(v):
@@ -88,7 +96,7 @@ def alphabet(kind, reduced=False):
             if t == 'base' and v == 'scalar':
                 continue
             ops.append(['setG', t, v])
-        for how in ('fresh', 'none', 'twice', 'shared'):
+        for how in ('fresh', 'none', 'twice', 'shared', 'zero'):
             ops.append(['add', t, how])
         if t == 'base':
             for ka in ('default', 'keep', 'drop'):
@@ -174,11 +182,13 @@ class World:
             if arg == 'none':
                 (self.sig if t == 'base' else self.sl[t]).add_sensitivity(None)
                 return
-            what = {'fresh': 'add', 'twice': 'twice', 'shared': 'shared'}[arg]
+            what = {'fresh': 'add', 'twice': 'twice', 'shared': 'shared', 'zero': 'add'}[arg]
             v = value(self.kind, what, shp, self.seed, self.cplx)
-            if isinstance(v, np.ndarray) and v.ndim == 0:
+            if arg == 'zero':      # an all-zero contribution is a contribution (it allocates the sensitivity)
+                v = v * 0
+            if isinstance(v, np.ndarray) and v.ndim == 0 and self.kind != 'z0':
                 v = v.item()
-            obj = (as_dyad(v) if self.dyad else np.array(v)) if isinstance(v, np.ndarray) else v
+            obj = (as_dyad(v) if self.dyad else np.array(v)) if (isinstance(v, np.ndarray) or self.kind == 'z0') else v
             tgt = self.sig if t == 'base' else self.sl[t]
             reps = 2 if arg == 'twice' else 1
             for _ in range(reps):
@@ -226,7 +236,7 @@ class World:
             ok = bool((g == w).all())
         else:
             d = np.abs(g - w)
-            ok = bool((d <= 1e-9 * np.maximum(np.abs(w), 1.0)).all())   # ALG class, elementwise scale
+            ok = bool((d <= 1e-9 * np.maximum(np.abs(w), UNIT.get(self.kind, 1.0))).all())   # ALG class, elementwise scale
         return None if ok else f'{what}:value'
 
     def compare(self):
@@ -381,7 +391,7 @@ def generate(tier, seed):
                                                             (5, True)]
     for d, red in plan:
         yield {'__level__': f"depth{d}/{'reduced' if red else 'full'}"}
-        for kind in ('s', 'dy', 'c3', 'v4', 'm23', 't222'):
+        for kind in ('s', 'z0', 'dy', 'c3', 'v4', 'v4t', 'm23', 'm23t', 't222'):
             for ws in (False, True):
                 al = alphabet(kind, red)
                 if d <= 3:
